@@ -490,3 +490,18 @@ func (c *Ctx) GenTie(cs Case, what, model, op string, args ...string) {
 		c.Fail(Failure{Kind: "tie", What: what + ": the code translated from the Go source (Gen.lean) and the hand-written Impl model disagree", Case: cs, Model: clip(model), Go: "translated: " + clip(g)})
 	}
 }
+
+// GenTieGo asks the driver over the TRANSLATED code (Gen.lean) for its answer on an input and compares it with what
+// the REAL library answered on the same input (goObs): a difference means that the translator (or its prelude) does
+// not say what the Go code does.
+func (c *Ctx) GenTieGo(cs Case, what, goObs, op string, args ...string) {
+	if c.GenDrv == nil {
+		return
+	}
+	g := c.GenDrv.Ask(op, args...)
+	c.genTies++
+	c.notes["translated_code_ties"] = c.genTies
+	if g != goObs {
+		c.Fail(Failure{Kind: "tie", What: what + ": the code translated from the Go source (Gen.lean) and the implementation disagree", Case: cs, Model: "translated: " + clip(g), Go: clip(goObs)})
+	}
+}
